@@ -400,8 +400,9 @@ func (r *Replica) handleStreamingState() error {
 		nextSeq := r.batchApplier.GetExpectedNext()
 		fmt.Printf("Creating stream request, starting from sequence: %d\n", nextSeq)
 
+		// start_sequence is exclusive: the last sequence this replica has applied
 		request := &replication_proto.WALStreamRequest{
-			StartSequence:        nextSeq,
+			StartSequence:        nextSeq - 1,
 			ProtocolVersion:      r.config.ProtocolVersion,
 			CompressionSupported: r.config.CompressionSupported,
 			PreferredCodec:       r.config.PreferredCodec,
